@@ -1256,3 +1256,113 @@ def _same_value(self, op_a, bb_a_edges, op_b, bb_b):
 
 Body.same_value = _same_value
 Body.root_local = lambda self, op: _root_local(self, op)
+
+
+# ---------------------------------------------------------------------------- inlined view
+def _shift(o, dl, db, nblocks_self):
+    """deep copy of a JSON fragment with local indices shifted by dl and block indices by db"""
+    if isinstance(o, dict):
+        out = {}
+        is_place = "l" in o and "p" in o and isinstance(o.get("p"), list)
+        for k, v in o.items():
+            if is_place and k == "l":
+                out[k] = v + dl
+            elif k == "idx" and isinstance(v, (int, str)) and str(v).isdigit():
+                out[k] = type(v)(int(v) + dl)
+            elif k in ("target", "otherwise", "unwind") and isinstance(v, int):
+                out[k] = v + db
+            elif k == "cases":
+                out[k] = [[c[0], c[1] + db] for c in v]
+            else:
+                out[k] = _shift(v, dl, db, nblocks_self)
+        return out
+    if isinstance(o, list):
+        return [_shift(x, dl, db, nblocks_self) for x in o]
+    return o
+
+
+def default_inline_policy(crate):
+    """private, non-recursive, crate-local functions with exactly one call site in the whole crate: extracting a
+    block into such a helper (or inlining it back) does not change behaviour, so shape rules look through them"""
+    key = "inline_policy"
+    if key in crate._cache:
+        return crate._cache[key]
+    sites = defaultdict(int)
+    for b in crate.bodies.values():
+        for c in b.calls:
+            if c.callee and c.callee.target in crate.bodies and not b.blocks[c.bb]["cleanup"]:
+                sites[c.callee.target] += 1
+    ok = set()
+    for fid, n in sites.items():
+        f = crate.bodies[fid]
+        if n != 1 or f.kind == "Closure" or f.vis == "pub" or f.impl_trait:
+            continue
+        if any(c.callee and c.callee.target == fid for c in f.all_calls()):
+            continue
+        # pure predicates stay calls: rules interpret them (is_forall_role etc.) instead of looking at a flag phi
+        if f.local_ty(0) == "bool" and not any(f.local_ty(l).startswith("&mut") for l in range(1, f.argc + 1)):
+            continue
+        ok.add(fid)
+    crate._cache[key] = ok
+    return ok
+
+
+def inline_view(crate, body, depth=3, keep=(), policy=None, max_blocks=1500):
+    """a synthetic Body in which calls to helper functions (policy: see default_inline_policy; `keep`: ids or
+    names never inlined) are replaced by the helper's blocks.  Parameters of the helper become locals assigned
+    from the arguments, its returns assign the call's destination.  Closures created inside an inlined helper
+    keep pointing to the original helper as their parent."""
+    ck = ("inline_view", body.id, depth, tuple(sorted(keep)))
+    if ck in crate._cache:
+        return crate._cache[ck]
+    pol = default_inline_policy(crate) if policy is None else policy
+    j = dict(body.j)
+    j["locals"] = [dict(x) for x in body.j["locals"]]
+    j["vars"] = [dict(x) for x in body.j["vars"]]
+    j["blocks"] = _shift(body.j["blocks"], 0, 0, 0)
+    inlined = []
+    work = [(i, 0) for i in range(len(j["blocks"]))]
+    while work:
+        bi, d = work.pop(0)
+        blk = j["blocks"][bi]
+        t = blk["term"]
+        if blk["cleanup"] or t["k"] != "call" or d >= depth or len(j["blocks"]) > max_blocks:
+            continue
+        cal = Callee(t["func"])
+        tgt = cal.target
+        if tgt not in pol or tgt in keep or (cal.name in keep) or tgt == body.id or t["target"] is None:
+            continue
+        cj = crate.bodies[tgt].j
+        if len(t["args"]) != cj["argc"]:
+            continue
+        dl, db = len(j["locals"]), len(j["blocks"])
+        j["locals"].extend(dict(x) for x in cj["locals"])
+        for v in cj["vars"]:
+            v2 = _shift(v, dl, 0, 0)
+            j["vars"].append(v2)
+        new_blocks = _shift(cj["blocks"], dl, db, 0)
+        for nb in new_blocks:
+            if nb["term"]["k"] == "return" and not nb["cleanup"]:
+                nb["stmts"] = nb["stmts"] + [{"k": "assign", "lhs": t["dest"], "rv": {"k": "use", "op": {"k": "move", "pl": {"l": dl, "p": []}}}, "line": t.get("line"), "inl": tgt}]
+                nb["term"] = {"k": "goto", "target": t["target"], "line": t.get("line")}
+        # parameter passing
+        for ai, a in enumerate(t["args"]):
+            blk["stmts"] = blk["stmts"] + [{"k": "assign", "lhs": {"l": dl + 1 + ai, "p": []}, "rv": {"k": "use", "op": a}, "line": t.get("line"), "inl": tgt}]
+        blk["term"] = {"k": "goto", "target": db, "line": t.get("line"), "inlined_call": tgt}
+        j["blocks"].extend(new_blocks)
+        inlined.append(tgt)
+        work.extend((db + k, d + 1) for k in range(len(new_blocks)))
+    if not inlined:
+        crate._cache[ck] = body
+        return body
+    nb = Body(crate, j)
+    nb.inlined = inlined
+    nb.origin = body
+    # closures: those of the root plus those of every inlined helper (parents stay as they are)
+    nb.closures = list(body.closures)
+    for tgt in inlined:
+        nb.closures.extend(crate.bodies[tgt].closures)
+    nb.parent_body = body.parent_body
+    nb.creation = body.creation
+    crate._cache[ck] = nb
+    return nb
